@@ -518,6 +518,7 @@ def run_shard(spec):
             from . import c18_real
             c18_real.run(rng, out, 12 if spec["tier"] == "quick" else 60)
             c18_real.run_composite(rng, out, 80 if spec["tier"] == "quick" else 600)
+            c18_real.run_crossfeed(rng, out, 6 if spec["tier"] == "quick" else 40)
         except ImportError:
             pass
     out["violations"].extend(instrument.VIOLATIONS)
